@@ -8,6 +8,7 @@ package absnfs
 // connection.
 
 import (
+	"strings"
 	"encoding/binary"
 	"encoding/json"
 	"fmt"
@@ -132,7 +133,72 @@ func c15Stream(base []byte, starts []int, cs c15Case) []byte {
 	return nil
 }
 
+// c15RawBase is the base stream without record marks (the raw transport mode that
+// NewServer selects when UseRecordMarking is off).
+func c15RawBase(base []byte, starts []int) []byte {
+	var raw []byte
+	for i, st := range starts {
+		end := len(base)
+		if i+1 < len(starts) {
+			end = starts[i+1]
+		}
+		raw = append(raw, base[st+4:end]...)
+	}
+	return raw
+}
+
+// c15Raw runs one stream through the raw-mode handler: crash, hang, allocation and
+// availability clauses only (replies are not framed in this mode).
+func c15Raw(c *vCtx, cs c15Case) {
+	c.beat(func() any { return cs })
+	c.res.Evaluations++
+	w := c14Setup("normal")
+	defer w.e.close()
+	base, starts := c15Base(w)
+	raw := c15RawBase(base, starts)
+	var stream []byte
+	switch cs.Kind {
+	case "rawprefix":
+		stream = append(stream, raw[:cs.Pos]...)
+	case "rawfield":
+		stream = append(stream, raw...)
+		binary.BigEndian.PutUint32(stream[cs.Pos:], cs.Val)
+	}
+	var returned, closed bool
+	var pan any
+	alloc := allocDelta(func() {
+		_, returned, closed, pan = vServeStreamRaw(w.e, stream, "10.0.0.1", 800, 120*time.Second)
+	})
+	bad := func(sig, msg string) { c.violation("C15|"+sig+"|stream="+cs.Kind, msg, cs) }
+	if pan != nil {
+		bad("panic-in-connection-handler", fmt.Sprintf("panic: %v", pan))
+	}
+	if !returned {
+		bad("connection-handler-hangs", "the raw-mode connection handler did not return after the client closed its side")
+		return
+	}
+	if !closed {
+		bad("connection-not-closed", "the handler returned without closing the connection")
+	}
+	if lim := uint64(6<<20 + 16*len(stream)); alloc > lim {
+		bad("allocation-exceeds-bounds", fmt.Sprintf("%d bytes allocated while serving a %d-byte raw stream", alloc, len(stream)))
+	}
+	var a wire.Enc
+	a.FH(w.root)
+	probe := append(wire.Record(wire.Call(0x7001, wire.ProgNFS, 3, 0, vCredSys(0, 0, nil), nil)),
+		wire.Record(wire.Call(0x7002, wire.ProgNFS, 3, wire.GETATTR, vCredSys(0, 0, nil), a.B))...)
+	pout, pret, _, ppan := vServeStream(w.e, probe, "10.0.0.2", 801, 120*time.Second)
+	if precs, _ := vSplitRecords(pout); ppan != nil || !pret || len(precs) != 2 {
+		bad("server-stops-serving-other-connections", fmt.Sprintf("probe connection after the raw stream: returned=%v panic=%v replies=%d", pret, ppan, len(precs)))
+	}
+	c.outcome("raw")
+}
+
 func c15One(c *vCtx, cs c15Case) {
+	if strings.HasPrefix(cs.Kind, "raw") {
+		c15Raw(c, cs)
+		return
+	}
 	c.beat(func() any { return cs })
 	c.res.Evaluations++
 	w := c14Setup("normal")
@@ -210,7 +276,7 @@ func init() {
 	vRegister(&vCheck{
 		id: "C15", level: "exploration", flavour: "vtime",
 		shards: func(string) int { return 16 },
-		rule: "bounded-exhaustive byte streams derived from a base stream of one valid record-marked call per NFSv3 procedure (22) and MOUNT procedure (6): (a) every byte-prefix (connection cut at every point); (b) every byte of every record's first 56 bytes (thorough: every byte of the stream) replaced by each of {0x00,0x01,0x7F,0x80,0xFF}; (c) every aligned 32-bit word of the stream (fragment headers, lengths, counts, handles, discriminants) replaced by each of {0,2^16,2^31-1,2^31,2^32-1}; (d) every stream of 1..3 words over {0,1,2,3,0x80000000,0x80000004,0x80000028,100003,100005,0xFFFFFFFF}; (e) fragment headers declaring 2^20+1 / 2^31-1 / 2^20 bytes followed by 0, 4 and 2800 bytes; (f) records made of 2..40 fully delivered non-final fragments of 64 KiB / 512 KiB / 1 MiB each (each within the limit, the sum below, at and above 1 MiB): above the limit the server must stop reading within 64 KiB of the limit. Each stream is fed to the real handleConnectionWithRecordMarking over a scripted connection on a fresh server. Oracle: no panic escapes, the handler returns and closes the connection once the client side is closed, replies are record-marked well-formed RPC replies whose xids are a prefix of the xids of the decodable calls in arrival order (independent parser), allocation stays below 6 MiB + 16 x stream length, and a probe connection (NULL + GETATTR) is then answered. A crash of the process is caught by the driver.",
+		rule: "bounded-exhaustive byte streams derived from a base stream of one valid record-marked call per NFSv3 procedure (22) and MOUNT procedure (6): (a) every byte-prefix (connection cut at every point); (b) every byte of every record's first 56 bytes (thorough: every byte of the stream) replaced by each of {0x00,0x01,0x7F,0x80,0xFF}; (c) every aligned 32-bit word of the stream (fragment headers, lengths, counts, handles, discriminants) replaced by each of {0,2^16,2^31-1,2^31,2^32-1}; (d) every stream of 1..3 words over {0,1,2,3,0x80000000,0x80000004,0x80000028,100003,100005,0xFFFFFFFF}; (e) fragment headers declaring 2^20+1 / 2^31-1 / 2^20 bytes followed by 0, 4 and 2800 bytes; (f) records made of 2..40 fully delivered non-final fragments of 64 KiB / 512 KiB / 1 MiB each (each within the limit, the sum below, at and above 1 MiB): above the limit the server must stop reading within 64 KiB of the limit; (g) the same base stream without record marks through the raw-mode handler (every 4th prefix, thorough every prefix; every word replaced by the five values): crash, hang, allocation and availability clauses. Each stream is fed to the real handleConnectionWithRecordMarking over a scripted connection on a fresh server. Oracle: no panic escapes, the handler returns and closes the connection once the client side is closed, replies are record-marked well-formed RPC replies whose xids are a prefix of the xids of the decodable calls in arrival order (independent parser), allocation stays below 6 MiB + 16 x stream length, and a probe connection (NULL + GETATTR) is then answered. A crash of the process is caught by the driver.",
 		assumptions: []string{"'decodable call' is decided by an independent record/RPC-header parser; the server may stop answering earlier (after a call it cannot process) but never answers out of order or more often",
 			"allocation is measured with runtime.MemStats over the whole stream (server goroutines included), collector off"},
 		run: func(c *vCtx) {
@@ -256,6 +322,18 @@ func init() {
 			for _, h := range []uint32{0x80000000 | (1<<20 + 1), 1<<20 + 1, 0x80000000 | (1<<31 - 1), 1<<31 - 1, 0x80000000 | 1<<20, 1 << 20} {
 				for _, n := range []int{0, 4, len(base)} {
 					cases = append(cases, c15Case{Kind: "frag", Val: h, Pos: n})
+				}
+			}
+			// (g) the raw transport mode: every prefix and every word replacement of the unmarked stream
+			rawLen := len(c15RawBase(base, starts))
+			for n := 0; n <= rawLen; n += 1 {
+				if c.thorough() || n%4 == 0 || n < 64 {
+					cases = append(cases, c15Case{Kind: "rawprefix", Pos: n})
+				}
+			}
+			for p := 0; p+4 <= rawLen; p += 4 {
+				for _, v := range []uint32{0, 1 << 16, 1<<31 - 1, 1 << 31, 1<<32 - 1} {
+					cases = append(cases, c15Case{Kind: "rawfield", Pos: p, Val: v})
 				}
 			}
 			// (f) records made of several fragments that are each within the limit
